@@ -28,12 +28,12 @@ LEVEL_NOTE = ("Trusted: Coq kernel, Go harness + Python glue. Modelled, not veri
 THEOREMS = ["height_spec", "ancestor_lower", "closure_spec", "closure_sorted", "ancestors_spec", "addr_stable",
             "commit_is_function_of_parents", "oracle_accepts_model"]
 RULE = ("random commit DAGs of 5-60 commits created through datas.Database.Commit on chunks.TestStorage: chains, branchy graphs with 2-, 3- and "
-        "4-parent merges, duplicate parents, criss-cross merge ladders, several roots later merged; non-trivial = at least one merge or two roots; "
+        "4-parent merges, duplicate parents, criss-cross merge ladders, several roots later merged, amend/squash commits (CommitOptions.AmendedCommit); non-trivial = at least one merge or two roots; "
         "distinct by parent lists + salt")
 ASSUMPTIONS = ["commit messages are unique per commit (index + salt), so distinct commits have distinct addresses",
                "parents are named by address, hence are earlier commits (the API cannot name a commit that does not exist yet)"]
 REQUIRED_TAGS = ["merge2", "merge3plus", "dup-parent", "multi-root", "crisscross", "long-chain", "closure-union-adds",
-                 "same-height-keys", "root-only-closure-empty"]
+                 "same-height-keys", "root-only-closure-empty", "amend"]
 
 
 # ---------------------------------------------------------------- generators
@@ -148,8 +148,24 @@ def gen_cases(rng, tier):
     cases.append({"h": gen_multiroot(rng, 60), "salt": 3})
     while len(cases) < n:
         big = tier != "quick" and rng.random() < 0.15
-        cases.append({"h": gen_dag(rng, rng.choice([40, 50, 60]) if big else None), "salt": rng.randrange(1 << 30)})
+        c = {"h": gen_dag(rng, rng.choice([40, 50, 60]) if big else None), "salt": rng.randrange(1 << 30)}
+        if rng.random() < 0.25:
+            add_amends(rng, c)
+        cases.append(c)
     return cases
+
+
+def add_amends(rng, c):
+    """commit --amend / squash through the datas API: a new commit with the parents of an earlier commit j, written with
+    AmendedCommit = j on j's dataset (j itself stays in the store and must stay unchanged)."""
+    h = c["h"]
+    amend = {}
+    for j in rng.sample(range(len(h)), min(len(h), rng.choice([1, 2, 3]))):
+        h.append(list(h[j]))
+        amend[str(len(h) - 1)] = j
+        if rng.random() < 0.5:                       # history continues from the amended commit
+            h.append([len(h) - 1])
+    c["amend"] = amend
 
 
 # ---------------------------------------------------------------- graph helpers (python side: classification only)
@@ -235,6 +251,10 @@ def classify(case, out):
         t.append("root-only-closure-empty")
     if not o["stable"]:
         t.append("unstable")
+    if case.get("amend"):
+        t.append("amend")
+        if any(not h[int(i)] for i in case["amend"]):
+            t.append("amend-root")
     return t
 
 
@@ -255,6 +275,9 @@ def _renumber_drop(h, d):
 
 def shrink_candidates(case):
     h = case["h"]
+    if case.get("amend"):
+        yield {"h": h, "salt": case.get("salt", 0)}      # same shape without the amend flag
+        return
     for d in range(len(h) - 1, -1, -1):
         if len(h) > 1:
             yield {"h": _renumber_drop(h, d), "salt": case.get("salt", 0)}
